@@ -428,11 +428,23 @@ struct ScriptedRead<'a> {
     fail_at: usize,
     calls: usize,
     fired: bool,
+    /// the source itself uses the library while it is being read (a reader that compresses records lazily)
+    nest: bool,
 }
 impl<'a> Read for ScriptedRead<'a> {
     fn read(&mut self, buf: &mut [u8]) -> io::Result<usize> {
         if buf.is_empty() {
             return Ok(0);
+        }
+        if self.nest {
+            self.nest = false;
+            let mut inner: &[u8] = b"nested record";
+            let mut out = Vec::new();
+            lzma_rs::lzma2_compress(&mut inner, &mut out)?;
+            let mut inner: &[u8] = b"nested record";
+            lzma_rs::xz_compress(&mut inner, &mut out)?;
+            let mut inner: &[u8] = b"nested record";
+            lzma_rs::lzma_compress(&mut inner, &mut out)?;
         }
         self.calls += 1;
         if self.fail_at != 0 && self.calls == self.fail_at {
@@ -628,7 +640,13 @@ fn run_rawlzma2(f: &Fields) -> String {
                 if dirty {
                     outs.push("unspec".into());
                 } else {
-                    let b = d.verif_state_bytes();
+                    // the expected-size field is masked: in LZMA2 every chunk header overwrites it before
+                    // use (theorem lzma2_ignores_stale_size), `reset` leaves it alone, and after a failed
+                    // decode it holds the failing chunk's size, which the model does not track
+                    let mut b = d.verif_state_bytes();
+                    for x in b.iter_mut().skip(4).take(9) {
+                        *x = 0;
+                    }
                     outs.push(format!("st:{}:{:08x}", b.len(), crc32(&b)));
                 }
             }
@@ -731,6 +749,20 @@ fn run_stream(f: &Fields) -> String {
                     None => outs.push("st:none".to_string()),
                     Some(b) => outs.push(format!("st:{}:{:08x}", b.len(), crc32(&b))),
                 }
+            }
+            ["go"] => {
+                // Stream::get_output / get_output_mut: the sink is reachable unless the stream has failed
+                let s = match st.as_mut() {
+                    Some(s) => s,
+                    None => break,
+                };
+                let a = s.get_output().map(|w| w.len());
+                let b = s.get_output_mut().map(|w| w.len());
+                outs.push(match (a, b) {
+                    (Some(x), Some(y)) if x == y => format!("go:{}", x),
+                    (None, None) => "go:none".to_string(),
+                    _ => "go:inconsistent".to_string(),
+                });
             }
             ["fin"] => {
                 let s = match st.take() {
@@ -867,6 +899,7 @@ fn run_enc(f: &Fields) -> String {
         fail_at: get(f, "rfail").parse().unwrap_or(0),
         calls: 0,
         fired: false,
+        nest: get(f, "nest") == "1",
     };
     let o = get(f, "opt");
     let opt = if o == "skip" {
@@ -911,6 +944,29 @@ fn run_enc(f: &Fields) -> String {
 fn run_crc(f: &Fields) -> String {
     let data = unhex(get(f, "in"));
     format!("crc32={:08x} crc64={:016x}", crc32(&data), crc64(&data))
+}
+
+fn dispatch(op: &str, f: &Fields) -> String {
+    match op {
+        "lzma" | "lzma2" | "xz" => run_oneshot(op, f),
+        "rawlzma" => run_rawlzma(f),
+        "rawlzma2" => run_rawlzma2(f),
+        "stream" => run_stream(f),
+        "win" => run_win(f),
+        "enc" => run_enc(f),
+        "crc" => run_crc(f),
+        _ => "bad-op".to_string(),
+    }
+}
+
+/// one protocol line in, the result (without id and heap peak) out: entry point of the
+/// differential fuzz target (`/verif/fuzz`), which includes this file as a module
+#[allow(dead_code)]
+pub fn run_line(line: &str) -> String {
+    let t = line.trim();
+    let op = t.split(' ').next().unwrap_or("");
+    let f = parse_fields(t);
+    dispatch(op, &f)
 }
 
 static CURRENT: AtomicU64 = AtomicU64::new(0);
@@ -961,16 +1017,7 @@ fn main() {
         CURRENT.store(n, Ordering::SeqCst);
         let base = LIVE.load(Ordering::Relaxed);
         PEAK.store(base, Ordering::Relaxed);
-        let res = match op {
-            "lzma" | "lzma2" | "xz" => run_oneshot(op, &f),
-            "rawlzma" => run_rawlzma(&f),
-            "rawlzma2" => run_rawlzma2(&f),
-            "stream" => run_stream(&f),
-            "win" => run_win(&f),
-            "enc" => run_enc(&f),
-            "crc" => run_crc(&f),
-            _ => "bad-op".to_string(),
-        };
+        let res = dispatch(op, &f);
         let peak = PEAK.load(Ordering::Relaxed).saturating_sub(base);
         CURRENT.store(0, Ordering::SeqCst);
         let _ = writeln!(out, "id={} {} peak={}", get(&f, "id"), res, peak);
